@@ -194,6 +194,18 @@ impl Recv {
                     }
                 };
 
+                // RFC 9110 8.6: a repeated content-length is only valid if all
+                // values are identical; the body cannot agree with two lengths.
+                if frame
+                    .fields()
+                    .get_all(header::CONTENT_LENGTH)
+                    .iter()
+                    .any(|v| frame::parse_u64(v.as_bytes()) != Ok(content_length))
+                {
+                    proto_err!(stream: "conflicting content-length values; stream={:?}", stream.id);
+                    return Err(Error::library_reset(stream.id, Reason::PROTOCOL_ERROR).into());
+                }
+
                 stream.content_length = ContentLength::Remaining(content_length);
                 // END_STREAM on headers frame with non-zero content-length is malformed.
                 // https://datatracker.ietf.org/doc/html/rfc9113#section-8.1.1
